@@ -856,16 +856,21 @@ def diagonal(a, offset=0, axis1=0, axis2=1):
     if a.shape[axis1] != a.shape[axis2]:
         raise ValueError("a.shape[axis1] != a.shape[axis2]")
 
-    diag_axes = [axis for axis in range(len(a.shape)) if axis != axis1 and axis != axis2] + [axis1]
+    axis1 = normalize_axis(axis1, a.ndim)
+    axis2 = normalize_axis(axis2, a.ndim)
+    # the position along the diagonal is the row index above the main diagonal
+    # and the column index below it
+    pos_axis = axis1 if offset >= 0 else axis2
+    diag_axes = [axis for axis in range(len(a.shape)) if axis != axis1 and axis != axis2] + [pos_axis]
     diag_shape = [a.shape[axis] for axis in diag_axes]
-    diag_shape[-1] -= abs(offset)
+    diag_shape[-1] = max(diag_shape[-1] - abs(offset), 0)
 
     diag_idx = _diagonal_idx(a.coords, axis1, axis2, offset)
 
     diag_coords = [a.coords[axis][diag_idx] for axis in diag_axes]
     diag_data = a.data[diag_idx]
 
-    return COO(diag_coords, diag_data, diag_shape)
+    return COO(diag_coords, diag_data, diag_shape, fill_value=a.fill_value)
 
 
 def diagonalize(a, axis=0):
